@@ -122,3 +122,24 @@ Proof.
     cbn [c_step] in H. destruct (c_start _ _ _ _) as [c' ob]. apply H.
   - apply (step_sinv true (fun _ => 1) (new_client 100 7 true None) (CStart 1 [1;2;3] 5)). apply sinv_new.
 Qed.
+
+(* The interleaving "Start is held between the client's own checks and the agent while Close runs to completion"
+   (model operation CStartRace, compared with the code through a pausing ClientAgent): Start returns the agent's
+   error after Close has returned nil; the client ends closed with nothing registered - so that Start's
+   transaction is not left behind waiting for a handler call that cannot come *)
+Theorem C10_start_race_spec : forall fb c id raw h, sinv c -> c_closed c = false -> T_find id (c_T c) = None ->
+  let '(c', ob) := c_start_race true fb c id raw h in
+  c_closed c' = true /\ c_T c' = [] /\ ag_closed (c_A c') = true /\
+  exists o2, ob = o2 ++ [ORet CNil] ++ [ORet (CAgentErr RClosed)].
+Proof. exact start_race_spec. Qed.
+Print Assumptions C10_start_race_spec.
+
+(* non-vacuity: with one other transaction in flight, whose handler Close invokes *)
+Example C10_start_race_nonvacuous :
+  let c1 := fst (c_start (new_client 100 7 true None) 7 [1; 2; 3] (Some 4)) in
+  sinv c1 /\ c_closed c1 = false /\ T_find 9 (c_T c1) = None /\
+  snd (c_start_race true true c1 9 [5; 6] 8) = [OInvoke 0 4 HRClientClosed; OConnClose; ORet CNil; ORet (CAgentErr RClosed)].
+Proof.
+  split; [apply (step_sinv true (fun _ => 0) (new_client 100 7 true None) (CStart 7 [1; 2; 3] 4)), sinv_new|].
+  vm_compute. repeat split.
+Qed.
